@@ -1,1 +1,120 @@
-From PsdV Require Import Base.Prelude Rle.Model.
+(* C05 - PackBits codec contract, both implementations (rle.py and _rle.pyx).
+   Only the property theorems; every proof is [exact] of a lemma of Rle/Proofs.v.
+   All statements are unbounded: every list, every size. *)
+From PsdV Require Import Base.Prelude Rle.Model Rle.Corr Rle.Proofs.
+
+(* ---------------------------------------------------------------- encoder *)
+(* 1. the encoder's output is a PackBits stream that the textbook expander maps back to the input *)
+Theorem encode_expand : forall l, expand (encode l) = Some l.
+Proof. exact Proofs.encode_expand. Qed.
+Print Assumptions encode_expand.
+
+(* 2. no no-op header (128) is ever emitted *)
+Theorem encode_no_noop : forall l, ~ In 128 (headers (encode l)).
+Proof. exact Proofs.encode_no_noop. Qed.
+Print Assumptions encode_no_noop.
+
+(* 3. worst-case size: length (encode l) <= n + ceil (n / 127), n = length l *)
+Theorem encode_bound : forall l,
+  127 * Z.of_nat (length (encode l)) <= 128 * Z.of_nat (length l) + 126.
+Proof. exact Proofs.encode_bound. Qed.
+Print Assumptions encode_bound.
+
+(* Apple's figure n + ceil (n / 128) assumes 128-byte literal packets; this encoder's hold 127
+   (MAX_LEN = 0xFF >> 1), so that figure is not met: 128 pairwise-distinct-adjacent bytes -> 130 *)
+Theorem encode_apple_bound_refuted : exists l,
+  Z.of_nat (length (encode l)) > Z.of_nat (length l) + (Z.of_nat (length l) + 127) / 128.
+Proof. exists (ramp 128 0). vm_compute. reflexivity. Qed.
+Print Assumptions encode_apple_bound_refuted.
+
+(* the encoder's output consists of bytes *)
+Theorem encode_bytes : forall l, bytes l -> bytes (encode l).
+Proof. exact Proofs.encode_bytes. Qed.
+Print Assumptions encode_bytes.
+Example encode_bytes_hyp : bytes [1; 2; 2; 2; 3].
+Proof. apply bytes_dec. reflexivity. Qed.
+
+(* ---------------------------------------------------------------- python decoder *)
+(* 4. the only failure of rle.decode is ValueError (never an index error, never out of fuel) *)
+Theorem py_decode_total : forall d n,
+  (exists r, py_decode d n = Ok r) \/ py_decode d n = Err ValueErr.
+Proof. exact Proofs.py_decode_total. Qed.
+Print Assumptions py_decode_total.
+
+(* 5. a successful decode has exactly [n] bytes; the only exception is the lone no-op byte *)
+Theorem py_decode_exact : forall d n r, bytes d -> py_decode d n = Ok r ->
+  Z.of_nat (length r) = n \/ (d = [128] /\ r = []).
+Proof. exact Proofs.py_decode_exact. Qed.
+Print Assumptions py_decode_exact.
+Example py_decode_exact_hyp : bytes [1; 7; 8; 254; 9] /\ py_decode [1; 7; 8; 254; 9] 5 = Ok [7; 8; 9; 9; 9].
+Proof. split; [apply bytes_dec|]; reflexivity. Qed.
+Example py_decode_exact_lone : bytes [128] /\ py_decode [128] 5 = Ok [].
+Proof. split; [apply bytes_dec|]; reflexivity. Qed.
+
+(* ---------------------------------------------------------------- cython decoder *)
+(* 6. every fill_n / copy_n of _rle.decode stays inside the [n]-byte result buffer *)
+Theorem cy_decode_no_oob_write : forall d n, bytes d -> 0 <= n -> cy_decode d n <> Err OOBWrite.
+Proof. exact Proofs.cy_decode_no_oob_write. Qed.
+Print Assumptions cy_decode_no_oob_write.
+
+Theorem cy_decode_total : forall d n, bytes d -> 0 <= n ->
+  (exists r, cy_decode d n = Ok r) \/ cy_decode d n = Err ValueErr \/ cy_decode d n = Err IndexErr.
+Proof. exact Proofs.cy_decode_total. Qed.
+Print Assumptions cy_decode_total.
+Example cy_decode_hyp : bytes [254; 9; 0; 4] /\ 0 <= 4 /\ cy_decode [254; 9; 0; 4] 4 = Ok [9; 9; 9; 4].
+Proof. split; [apply bytes_dec; reflexivity|]. split; [lia|reflexivity]. Qed.
+
+(* 7. the two decoders agree except on the class [trailing_replicate] (finding F-C05-1) *)
+Theorem cy_py_agree : forall d n, bytes d -> 0 <= n ->
+  cy_decode d n = py_decode d n \/
+  (trailing_replicate d n = true /\ cy_decode d n = Err IndexErr /\ py_decode d n = Err ValueErr).
+Proof. exact Proofs.cy_py_agree. Qed.
+Print Assumptions cy_py_agree.
+
+(* ... and that class is exact: on every member the decoders do differ, in this way *)
+Theorem trailing_replicate_differ : forall d n, bytes d -> 0 <= n -> trailing_replicate d n = true ->
+  cy_decode d n = Err IndexErr /\ py_decode d n = Err ValueErr.
+Proof. exact Proofs.trailing_replicate_differ. Qed.
+Print Assumptions trailing_replicate_differ.
+Example trailing_replicate_hyp : bytes [0; 5; 255] /\ 0 <= 3 /\ trailing_replicate [0; 5; 255] 3 = true.
+Proof. split; [apply bytes_dec; reflexivity|]. split; [lia|reflexivity]. Qed.
+
+Theorem differ_trailing_replicate : forall d n, bytes d -> 0 <= n ->
+  cy_decode d n <> py_decode d n -> trailing_replicate d n = true.
+Proof. exact Proofs.differ_trailing_replicate. Qed.
+Print Assumptions differ_trailing_replicate.
+
+(* unguarded agreement is false of the faithful model: witness of F-C05-1 *)
+Theorem cy_py_agree_refuted : exists d n, cy_decode d n <> py_decode d n.
+Proof. exists [0; 5; 255], 3. vm_compute. discriminate. Qed.
+Print Assumptions cy_py_agree_refuted.
+
+(* ---------------------------------------------------------------- round trip *)
+(* 8. any conforming stream (not only this encoder's) decodes to its expansion *)
+Theorem decode_conforming : forall d n r, bytes d -> expand d = Some r ->
+  Z.of_nat (length r) = n -> 0 < n -> length d <> 1%nat -> py_decode d n = Ok r.
+Proof. exact Proofs.decode_conforming. Qed.
+Print Assumptions decode_conforming.
+Example decode_conforming_hyp :
+  bytes [254; 9; 128; 1; 4; 5] /\ expand [254; 9; 128; 1; 4; 5] = Some [9; 9; 9; 4; 5] /\
+  Z.of_nat (length [9; 9; 9; 4; 5]) = 5 /\ 0 < 5 /\ length [254; 9; 128; 1; 4; 5] <> 1%nat.
+Proof.
+  split; [apply bytes_dec; reflexivity|]. split; [reflexivity|]. split; [reflexivity|].
+  split; [lia|discriminate].
+Qed.
+
+(* 9. decode (encode l) = l for both decoders *)
+Theorem decode_encode : forall l, bytes l -> py_decode (encode l) (Z.of_nat (length l)) = Ok l.
+Proof. exact Proofs.decode_encode. Qed.
+Print Assumptions decode_encode.
+
+Theorem decode_encode_cy : forall l, bytes l -> cy_decode (encode l) (Z.of_nat (length l)) = Ok l.
+Proof. exact Proofs.decode_encode_cy. Qed.
+Print Assumptions decode_encode_cy.
+
+Theorem encode_not_trailing : forall l, bytes l ->
+  trailing_replicate (encode l) (Z.of_nat (length l)) = false.
+Proof. exact Proofs.encode_not_trailing. Qed.
+Print Assumptions encode_not_trailing.
+Example decode_encode_hyp : bytes (ramp 130 250 ++ [7; 7; 7; 1; 1]).
+Proof. apply bytes_dec. vm_compute. reflexivity. Qed.
